@@ -61,9 +61,31 @@ def mutate(rng, s):
     return "".join(toks)
 
 
+def cross():
+    """every block opener x every else form x (top level | inside a helper block | inside a partial block):
+    pair orders the grammar may or may not accept, each of which compile2 has to answer without panicking"""
+    blocks = [("{{#if a}}", "{{/if}}"), ("{{#each a as |x|}}", "{{/each}}"), ("{{#> p}}", "{{/p}}"), ("{{#*inline \"i\"}}", "{{/inline}}"),
+              ("{{{{raw}}}}", "{{{{/raw}}}}"), ("{{#mk}}", "{{/mk}}"), ("{{#*deco}}", "{{/deco}}")]
+    mids = ["{{else}}", "{{^}}", "{{else if b}}", "{{~else~}}", "{{else}}y{{else}}", "{{else if b}}y{{else if c}}", "{{else}}y{{else if b}}"]
+    outs = []
+    for o, c in blocks:
+        for m in mids:
+            core_ = o + "x" + m + "z" + c
+            outs.append(core_)
+            outs.append("{{#if t}}" + core_ + "{{/if}}")
+            outs.append("{{#> q}}" + core_ + "{{/q}}")
+            outs.append("{{#if t}}u{{else}}" + core_ + "{{/if}}")
+    outs += ["{{else}}", "{{^}}", "{{else if b}}", "x{{else}}y", "{{> p}}{{else}}", "{{#if a}}{{> p}}{{else}}{{/if}}"]
+    return outs
+
+
 def generate(rng, n, tier="quick"):
     out = []
+    for k, src in enumerate(cross()):
+        out.append(({"kind": "compile", "src": src, "name": None, "prevent_indent": False, "id": "%s-cross-%03d" % (ID, k)},
+                    {"mode": "cross", "src": src}))
     i = 0
+    n = n + len(out)
     while len(out) < n:
         r = rng.fork(i)
         i += 1
@@ -94,6 +116,9 @@ def generate(rng, n, tier="quick"):
             case["id"] = "%s-%06d" % (ID, i)
             out.append((case, {"mode": mode, "src": bad}))
             continue
+        if r.chance(0.25):
+            # multi-byte text before whatever follows (byte vs char offsets in error positions and slices)
+            src = r.pick(["你好", "ééé", "→ ", "中文你好 ", "é\n😀😀", "ß"]) + src
         name = r.pick([None, "t", "dir/name.hbs"])
         case = {"kind": "compile", "src": src, "name": name, "prevent_indent": (r.chance(0.2) if name else False),
                 "id": "%s-%06d" % (ID, i)}
